@@ -35,9 +35,15 @@ func TestC08(t *testing.T) {
 				}
 				switch f.Cat {
 				case core.CatComponents, core.CatRelation, core.CatHandles, core.CatScan, core.CatInvIndex, core.CatInvTable, core.CatInvNode, core.CatInvPool, core.CatObserve:
-					return true
+				default:
+					return false
 				}
-				return false
+				// a difference between the batch call and the loop of single calls: exactly one of
+				// the two worlds deviates from the model (if both do, the single-entity operation
+				// itself is broken, which is another property's business)
+				okB := s.B.Verify(s.M, core.FullVerify) == nil
+				okL := s.L.Verify(s.M, core.FullVerify) == nil
+				return okB != okL
 			},
 		},
 		Mix:      mix,
